@@ -1,9 +1,12 @@
 package main
 
 import (
+	"bufio"
+	"encoding/json"
 	"fmt"
 	"math/big"
-	"sort"
+	"os"
+	"path/filepath"
 	"strings"
 
 	"cvh/lib"
@@ -314,7 +317,7 @@ func c16(sum *lib.Summary) {
 		ElemType: "nkind * nkind * Z * res Z * res Z", CheckFn: "check_conv", PerFile: 700}
 	cwr := &lib.CaseWriter{Dir: *dir, Prefix: "cases_C16round", Header: "From CV Require Import C16.Cases.",
 		ElemType: "nkind * nkind * rmode * Z * res Z * res Z", CheckFn: "check_conv_round", PerFile: 700}
-	nrand, coqPerPair, nscript := 12, 7, 120
+	nrand, coqPerPair, nscript := 12, 6, 120
 	if *tier == "thorough" {
 		nrand, coqPerPair, nscript = 400, 60, 3000
 	}
@@ -406,6 +409,11 @@ func c16(sum *lib.Summary) {
 		take(rest, n-len(sel))
 		return sel
 	}
+	checkClassification(sum)
+	// corpus and the defect witnesses of the unchanged tree first (always exercised)
+	for _, w := range append(corpusCases(), witnesses()...) {
+		one(KindByName(w.s), KindByName(w.t), w.z, w.mode, true)
+	}
 	for _, s := range Kinds {
 		for _, t := range Kinds {
 			v := sourceValues(s, t, rng, nrand)
@@ -415,17 +423,13 @@ func c16(sum *lib.Summary) {
 			}
 		}
 	}
-	// the defect witnesses of the unchanged tree, always exercised (also listed in corpus/C16)
-	for _, w := range witnesses() {
-		one(KindByName(w.s), KindByName(w.t), w.z, w.mode, true)
-	}
 	// rounding conversions
 	for _, s := range Kinds {
 		for _, t := range []NKind{KindByName("Fix64"), KindByName("UFix64")} {
 			v := roundingValues(s, t, rng, nrand)
 			per := 3
 			if s.Scale == 24 {
-				per = 40
+				per = 30
 			}
 			if *tier == "thorough" {
 				per *= 6
@@ -480,8 +484,64 @@ func c16(sum *lib.Summary) {
 			}
 		}
 	}
-	// distribution keys sorted for determinism of the JSON (maps are sorted by encoding/json anyway)
-	_ = sort.Strings
+}
+
+// expectedBig: the BigNumberValue classification the Coq model (is_big) assumes.
+var expectedBig = map[string]bool{"Int": true, "UInt": true, "Int128": true, "Int256": true,
+	"UInt64": true, "UInt128": true, "UInt256": true, "Word64": true, "Word128": true, "Word256": true}
+
+func checkClassification(sum *lib.Summary) {
+	for _, k := range Kinds {
+		_, isBig := k.Make(big.NewInt(1)).(interpreter.BigNumberValue)
+		_, isNum := k.Make(big.NewInt(1)).(interpreter.NumberValue)
+		sum.Evaluations++
+		if isBig != expectedBig[k.Name] || !isNum {
+			sum.Fail("bignumber-classification:"+k.Name,
+				fmt.Sprintf("%s: implements BigNumberValue=%v NumberValue=%v, the model assumes BigNumberValue=%v", k.Name, isBig, isNum, expectedBig[k.Name]),
+				map[string]any{"kind": k.Name, "is_big": isBig})
+		}
+	}
+}
+
+// corpus: hand-picked cases, one JSON object per line: {"source","target","carried","rounding"}
+func corpusCases() []witness {
+	var out []witness
+	if *corp == "" {
+		return out
+	}
+	files, _ := filepath.Glob(filepath.Join(*corp, "*.jsonl"))
+	for _, f := range files {
+		fh, err := os.Open(f)
+		if err != nil {
+			continue
+		}
+		sc := bufio.NewScanner(fh)
+		for sc.Scan() {
+			line := strings.TrimSpace(sc.Text())
+			if line == "" || strings.HasPrefix(line, "#") {
+				continue
+			}
+			var d struct {
+				Source, Target, Carried, Rounding string
+			}
+			if json.Unmarshal([]byte(line), &d) != nil {
+				continue
+			}
+			mode := -1
+			for i, n := range modeNames {
+				if n == d.Rounding {
+					mode = i
+				}
+			}
+			z, ok := new(big.Int).SetString(d.Carried, 10)
+			if !ok || !KindByName(d.Source).InRange(z) {
+				continue
+			}
+			out = append(out, witness{d.Source, d.Target, z, mode})
+		}
+		fh.Close()
+	}
+	return out
 }
 
 func family(k NKind) string {
